@@ -146,7 +146,7 @@ class GreedySchedulingFromPlan(Scheduling):
         temporary_resources
 
         """
-        if cluster.is_occupied(machine):
+        if cluster.is_occupied(machine) or machine not in temporary_resources:
             if temporary_resources:
                 # so greedy we pop the first resource available
                 machine = temporary_resources[0]
